@@ -14,12 +14,14 @@ logging.disable(logging.CRITICAL)
 
 import numpy as np  # noqa: E402
 import zlib  # noqa: E402
+from traits.trait_list_object import TraitListObject  # noqa: E402
 from traits.api import (  # noqa: E402
     Any, Array, Bool, Bytes, CBool, CBytes, CComplex, CFloat, CInt, CStr, Callable, Complex, Either, Enum, Float,
-    HasTraits, Instance, Int, Map, Module, PrefixList, PrefixMap, Range, Regex, Str, String, Supports, This, Title,
+    HasTraits, Instance, Int, List, Map, Module, PrefixList, PrefixMap, Range, Regex, Str, String, Supports, This, Title,
     TraitError, Tuple, Type, Undefined, Union, ValidatedTuple)
 
 SCALE = 1000
+ATTR_NAME = {0: "x", 1: "other", 2: "y", 3: "z"}      # attribute ids of the C01 driver
 ADDR = re.compile(r"0x[0-9a-f]{6,}")
 
 
@@ -322,7 +324,7 @@ class Pool:
             return ["PTuple", [self.enc(x) for x in v]]
         if t is TupSub:
             return ["PTupleSub", [self.enc(x) for x in v]]
-        if t is list:
+        if t is list or t is TraitListObject:      # a List trait stores a TraitListObject copy: a list for the property
             return ["PList", [self.enc(x) for x in v]]
         for k, c in NPK.items():
             if t is c:
@@ -364,6 +366,14 @@ class Pool:
         if t is FooAdapter and getattr(v, "adaptee", None) is not None and id(v.adaptee) in self.ids:
             return ["PObj", 103, self.ids[id(v.adaptee)][1]]
         raise Unencodable(repr(v)[:60])
+
+
+# total custom validation functions of ValidatedTuple (the model takes their answer on the converted tuple as data)
+FVALIDATE = {0: lambda t: True, 1: lambda t: repr(t[0]) <= repr(t[-1]), 2: lambda t: False, 3: lambda t: len(repr(t)) % 2 == 0}
+
+
+def fv_fun(k):
+    return None if k in (None, "none") else FVALIDATE[0 if k == "true" else k]
 
 
 def fbound(b):
@@ -408,9 +418,8 @@ def trait(d, pool):
     if k == "DMap":
         return Map({pool.val(a): pool.val(b) for a, b in d[1]})
     if k == "DTuple":
-        if len(d) > 2 and d[2] == "Validated":      # ValidatedTuple with no / an always-true fvalidate
-            return ValidatedTuple(*[trait(x, pool) for x in d[1]],
-                                  fvalidate=None if d[3] == "none" else (lambda values: True))
+        if len(d) > 2 and d[2] == "Validated":      # ValidatedTuple(*traits, fvalidate=None | FVALIDATE[k])
+            return ValidatedTuple(*[trait(x, pool) for x in d[1]], fvalidate=fv_fun(d[3]))
         return Tuple(*[trait(x, pool) for x in d[1]])
     if k == "DInstance":
         if len(d) > 4 and d[4] == "clone":     # Instance(K, allow_none=not an)(allow_none=an): a trait type called with metadata
@@ -439,6 +448,10 @@ def trait(d, pool):
         return PrefixList(["".join(chr(c) for c in s) for s in d[1]])
     if k == "DPrefixMap":
         return PrefixMap({"".join(chr(c) for c in s): pool.val(x) for s, x in d[1]})
+    if k == "DList":
+        return List(trait(d[1], pool), minlen=d[2], maxlen=d[3])
+    if k == "DRangeDyn":       # Range(low='<name>', high='<name>'): the bounds are other traits of the same class
+        return Range(low=ATTR_NAME[d[1]], high=ATTR_NAME[d[2]], exclude_low=bool(d[3] & 1), exclude_high=bool(d[3] & 2))
     if k == "DArray":
         shp = None if d[2] is None else tuple(None if x is None else (x if isinstance(x, int) else tuple(x)) for x in d[2])
         return Array(dtype=None if d[1] is None else DTYPES[d[1]], shape=shp, casting=CASTING[d[3]])
@@ -451,6 +464,8 @@ def trait(d, pool):
 
 def regex_ids(d, acc=None):
     acc = set() if acc is None else acc
+    if d[0] == "DList":
+        return regex_ids(d[1], acc)
     if d[0] == "DString" and d[3] is not None:
         acc.add(d[3])
     for x in d[1:]:
@@ -463,6 +478,8 @@ def regex_ids(d, acc=None):
 
 def adapt_classes(d, acc=None):
     acc = set() if acc is None else acc
+    if d[0] == "DList":
+        return adapt_classes(d[1], acc)
     if d[0] == "DAdapt":
         acc.add(d[1])
     for x in d[1:]:
@@ -480,10 +497,14 @@ def array_nodes(d, acc=None):
     elif d[0] in ("DTuple", "DCompound", "DUnion"):
         for y in d[1]:
             array_nodes(y, acc)
+    elif d[0] == "DList":
+        array_nodes(d[1], acc)
     return acc
 
 
 def mentions(d, names):
+    if d[0] == "DList":
+        return mentions(d[1], names)
     if d[0] in names or (d[0] == "DCast" and d[1] in names):
         return True
     for x in d[1:]:
@@ -526,6 +547,14 @@ def oracles(pool, d, v):
     orc, rem = [], []
     want_str = mentions(d, ("CTStr", "DString"))
     want_bytes = mentions(d, ("CTBytes",))
+    if d[0] == "DTuple" and len(d) > 2 and d[2] == "Validated" and d[3] not in (None, "none") and isinstance(v, (tuple, list)):
+        try:        # the converted tuple, through a plain Tuple of the same member traits on a scratch object
+            holder = type("FvHolder", (HostBase,), {"t": Tuple(*[trait(x, pool) for x in d[1]])})()
+            w = holder.trait("t").validate(holder, "t", tuple(v))
+            w = tuple(w)
+            orc.append([500 + (0 if d[3] == "true" else d[3]), pool.enc(w), ["PBool", bool(fv_fun(d[3])(w))]])
+        except Exception:
+            pass
     adapt_cls = sorted(adapt_classes(d))
     arr_nodes = array_nodes(d)
     rids = sorted(regex_ids(d))
